@@ -1188,7 +1188,9 @@ func (hv *Hash) mergeEntries(o px.OrderedMap) []*HashEntry {
 }
 
 func (hv *Hash) Slice(i int, j int) px.List {
-	return WrapHash(hv.entries[i:j])
+	// bounds are checked against the length, not the capacity (see Array.Slice)
+	n := len(hv.entries)
+	return WrapHash(hv.entries[:n:n][i:j])
 }
 
 type hashSorter struct {
